@@ -46,7 +46,7 @@ def adoptHint (k : Keeper) (cands : List Utxo) (r : Res) (hint : List Nat) : Opt
 
 def parseUtxo (w : List String) (contract : Bool) : Option Utxo :=
   match w.map nat? with
-  | [some id, some asset, some amount, some acct, some vote, some vh] => some ⟨id, asset, amount, acct, vote, vh, contract⟩
+  | [some id, some asset, some amount, some acct, some vote, some vh] => some ⟨id, asset, amount, acct, vote, vh, contract, 0⟩
   | _ => none
 
 def step (k : Keeper) (line : String) : Keeper × String :=
